@@ -5,6 +5,7 @@ import (
 	"encoding/binary"
 	"fmt"
 	"os"
+	"sort"
 	"strconv"
 	"strings"
 	"sync"
@@ -402,6 +403,42 @@ func gen(g *common.Gen) {
 					pre := a[:k].Clone()
 					pool = append(pool, append(pre.Clone(), x), append(pre.Clone(), y, x), append(pre.Clone(), x, y), append(pre.Clone(), y))
 				}
+				{
+					// prefix queries: newest version under a prefix in the memory store; Data matching in the PIT by
+					// name (equal, or extending a CanBePrefix Interest) and by token
+					perm := make([]int, len(pool))
+					for x := range perm {
+						perm[x] = x + 1
+					}
+					for x := len(perm) - 1; x > 0; x-- {
+						y := r.Intn(x + 1)
+						perm[x], perm[y] = perm[y], perm[x]
+					}
+					mt := make([]string, 0, 2*len(pool))
+					pt := make([]string, 0, 3*len(pool))
+					for x, n := range pool {
+						if r.Chance(3, 4) {
+							mt = append(mt, fmt.Sprintf("P:%s:%d", common.NameText(n), perm[x]))
+						}
+						if r.Chance(2, 3) {
+							pt = append(pt, fmt.Sprintf("I:%s:%d", common.NameText(n), r.Intn(2)))
+						}
+					}
+					ni := len(pt)
+					for _, n := range pool {
+						mt = append(mt, "Q:"+common.NameText(n))
+						if len(n) > 0 {
+							mt = append(mt, "Q:"+common.NameText(n[:r.Intn(len(n))]))
+						}
+						tok := "-"
+						if ni > 0 && r.Chance(1, 3) {
+							tok = strconv.Itoa(r.Intn(ni))
+						}
+						pt = append(pt, fmt.Sprintf("D:%s:%s", common.NameText(n), tok))
+					}
+					g.Op("memp %s", strings.Join(mt, " "))
+					g.Op("pitm %s", strings.Join(pt, " "))
+				}
 				for _, kind := range []string{"trie", "mem", "pit"} {
 					toks := make([]string, 0, 24)
 					for n := r.Range(8, 16); n > 0; n-- {
@@ -677,6 +714,65 @@ func exec(op string) string {
 			return "c=" + strings.Join(cls, ",")
 		}
 		return "bad-op"
+	case "memp":
+		st := object.NewMemoryStore()
+		idx := 0
+		var out []string
+		for _, t := range f[1:] {
+			switch {
+			case strings.HasPrefix(t, "P:"):
+				k := strings.LastIndexByte(t, ':')
+				st.Put(common.ParseNameText(t[2:k]), common.Atou(t[k+1:]), []byte{byte(idx)})
+				idx++
+			case strings.HasPrefix(t, "Q:"):
+				w, _ := st.Get(common.ParseNameText(t[2:]), true)
+				if w == nil {
+					out = append(out, "-")
+				} else {
+					out = append(out, strconv.Itoa(int(w[0])))
+				}
+			}
+		}
+		return strings.Join(out, " ")
+	case "pitm":
+		pit := table.NewPitCS(func(table.PitEntry) {})
+		nonce := uint32(7)
+		var entries []table.PitEntry
+		first := map[table.PitEntry]int{}
+		var out []string
+		for _, t := range f[1:] {
+			k := strings.LastIndexByte(t, ':')
+			switch {
+			case strings.HasPrefix(t, "I:"):
+				e, _ := pit.InsertInterest(&spec.Interest{NameV: common.ParseNameText(t[2:k]), NonceV: &nonce, CanBePrefixV: t[k+1:] == "1"}, nil, 1)
+				if _, ok := first[e]; !ok {
+					first[e] = len(entries)
+				}
+				entries = append(entries, e)
+			case strings.HasPrefix(t, "D:"):
+				var tok *uint32
+				if t[k+1:] != "-" {
+					v := entries[common.Atoi(t[k+1:])].Token()
+					tok = &v
+				}
+				ms := pit.FindInterestPrefixMatchByDataEnc(&spec.Data{NameV: common.ParseNameText(t[2:k])}, tok)
+				ids := make([]int, 0, len(ms))
+				for _, m := range ms {
+					ids = append(ids, first[m])
+				}
+				sort.Ints(ids)
+				if len(ids) == 0 {
+					out = append(out, "-")
+				} else {
+					ss := make([]string, len(ids))
+					for i, v := range ids {
+						ss[i] = strconv.Itoa(v)
+					}
+					out = append(out, strings.Join(ss, ","))
+				}
+			}
+		}
+		return strings.Join(out, " ")
 	case "pparse":
 		pat, err := enc.NamePatternFromStr(string(common.UnHex(f[1])))
 		if err != nil {
